@@ -26,6 +26,15 @@ Does not decide: rio's escaping of arbitrary unicode (bzrformats).
 """
 
 
+#: locals of conflicts.py:resolve by what they hold
+RESOLVE_ROLES = {
+    "tree_conflicts": ("assign", "tree.conflicts()"),
+    "new_conflicts": ("assign", "~{tree_conflicts}\\.select_conflicts\\(.*\\)", 0),
+    "to_process": ("assign", "~{tree_conflicts}\\.select_conflicts\\(.*\\)", 1),
+    "conflict": ("for", "{to_process}"),
+}
+
+
 def stanza_info(repo, rel, cname, seen=None):
     """(unconditional keys, conditional keys {key: guard attr}, decoded keys) of cname.as_stanza, following
     `Parent.as_stanza(self)` / super().as_stanza() calls."""
@@ -160,7 +169,13 @@ def run(ctx):
         ca = cmp_attrs(repo, CF, cname)
         ctx.check("compared-attrs-persisted", where, ca <= keys and ca <= assigned, f"attributes compared by _cmp_list {sorted(ca)} are written and restored", construct=str(sorted(ca - keys) + sorted(ca - assigned)), message=f"{cname}._cmp_list compares {sorted(ca - keys)} which as_stanza does not persist")
     # ---- select_conflicts partition -------------------------------------------------
+    from ..astutil import bind_roles, canonicalise
+
     fn = repo.func(CF, "ConflictList.select_conflicts")
+    fn = canonicalise(fn, bind_roles(fn, {"new_conflicts": ("return", None, 0), "selected_conflicts": ("return", None, 1), "conflict": ("for", "self")}, f"{CF}:ConflictList.select_conflicts"))
+    flag = sorted({norm(s_.targets[0]) for s_ in ast.walk(fn) if isinstance(s_, ast.Assign) and isinstance(s_.value, ast.Constant) and s_.value.value is True})
+    if len(flag) == 1:
+        fn = canonicalise(fn, {"selected": flag[0]})
     loops = [n for n in walk_own(fn) if isinstance(n, ast.For) and norm(n.iter) == "self"]
     ok = len(loops) == 1
     if ok:
@@ -188,7 +203,7 @@ def run(ctx):
         ctx.check("persistence-unconditional", f"{WT}:InventoryWorkingTree.{meth}", gs.exit not in r, f"{meth}() cannot return normally without having written {fname!r}", message=f"{meth}() has a path that returns without writing {fname!r}: a list that differs only in fields the in-memory comparison ignores (e.g. conflict_path) is not persisted", witness=gs.show_path(gs.without_exc_edges().path([gs.entry], [gs.exit], avoid=set(wr))) if gs.exit in r else None)
     # ---- selection in resolve(): only `paths is None` means "all" --------------------------------------
     CG = "breezy/conflicts.py"
-    gr = build_cfg(repo.func(CG, "resolve"))
+    gr = build_cfg(canonicalise(repo.func(CG, "resolve"), bind_roles(repo.func(CG, "resolve"), RESOLVE_ROLES, f"{CG}:resolve")))
     alls = [n.id for n in gr.nodes if n.kind == "stmt" and isinstance(n.ast, ast.Assign) and norm(n.ast.targets[0]) == "to_process" and norm(n.ast.value) == "tree_conflicts"]
     sel = calling(gr, attr="select_conflicts")
     ctx.require(bool(alls) and bool(sel), f"{CG}:resolve: the all/selected branches were not found")
